@@ -415,9 +415,21 @@ ALPHABET = list("ABkmn_019 \t[](),.*+-=") + ["take(", "0..", ".pos", ".coord", "
 def near_miss(draw):
     r = draw(rendered())
     text = r["text"]
-    mode = draw(st.sampled_from(["delete", "insert", "duplicate", "swap", "append", "replace", "random"]))
+    mode = draw(st.sampled_from(["delete", "insert", "duplicate", "swap", "append", "replace", "random", "digit", "digit", "operator"]))
     if mode == "random":
         text = "".join(draw(st.lists(st.sampled_from(ALPHABET), min_size=1, max_size=12)))
+    elif mode in ("digit", "operator"):
+        # a digit replaced by another digit (lower bounds, sizes, coefficients), an operator / separator by a similar one
+        pool = "0123456789" if mode == "digit" else "+-*,.=()[]"
+        pos = [k for k, ch in enumerate(text) if ch in pool]
+        if pos:
+            i = draw(st.sampled_from(pos))
+            others = [ch for ch in pool if ch != text[i]]
+            if mode == "digit":
+                # off-by-one digits are the realistic near misses ([1..N], a size or coefficient one off)
+                d = int(text[i])
+                others = [str((d + 1) % 10), str((d - 1) % 10)] * 3 + others
+            text = text[:i] + draw(st.sampled_from(others)) + text[i + 1:]
     elif text:
         i = draw(st.integers(0, len(text) - 1))
         if mode == "delete":
@@ -438,7 +450,8 @@ def near_miss(draw):
 
 class NearMiss(Part):
     name = "near-miss"
-    rule = ("valid renderings are mutated (delete / insert / duplicate / swap / append / replace a character or token) and arbitrary "
+    rule = ("valid renderings are mutated (delete / insert / duplicate / swap / append / replace a character or token; a digit by another "
+            "digit; an operator or separator by a similar one) and arbitrary "
             "short strings over the grammars' alphabet are drawn; the parser must raise, or the accepted string must be lossless: "
             "re-rendering the extracted structure canonically gives the input modulo spaces/tabs and the spelling of integers. "
             "Non-trivial = the mutated string differs (modulo whitespace) from its origin; both outcomes are counted as classes.")
